@@ -31,6 +31,16 @@ scen.append(S("failed-load-awaiters",2,[st("Start",g=1,lo=1,hi=4),st("LoadBegin"
 scen.append(S("trim-while-loading",2,[st("Start",g=1,lo=1,hi=4),st("LoadBegin",g=1),st("Start",g=2,lo=3,hi=4),st("Trim",T=[2]),st("Start",g=3,lo=3,hi=4),st("LoadBegin",g=3),
   st("LoadEnd",g=1,ok=True),st("Post",g=1),st("LoadEnd",g=3,ok=True),st("Post",g=3),st("GetEnd",g=1),st("GetEnd",g=2),st("GetEnd",g=3),
   st("Start",g=4,lo=1,hi=4),st("GetEnd",g=4)]))
+# a chunk invalidated while it is being loaded stays invalidated after the load is published
+scen.append(S("invalidated-while-loading",2,[st("Start",g=1,lo=1,hi=2),st("LoadBegin",g=1),st("LoadEnd",g=1,ok=True),
+  st("InvBegin",i=1,T=[1]),st("InvApply",i=1),st("Post",g=1),st("GetEnd",g=1),
+  st("Start",g=2,lo=1,hi=2),st("LoadBegin",g=2),st("LoadEnd",g=2,ok=True),st("Post",g=2),st("GetEnd",g=2)]))
+# an invalidation naming several chunks reaches all of them
+scen.append(S("invalidate-two-chunks",2,[st("Start",g=1,lo=1,hi=6),st("LoadBegin",g=1),st("LoadEnd",g=1,ok=True),st("Post",g=1),st("GetEnd",g=1),
+  st("InvBegin",i=1,T=[1,2,3]),st("InvApply",i=1),
+  st("Start",g=2,lo=2,hi=6),st("LoadBegin",g=2),st("LoadEnd",g=2,ok=True),st("Post",g=2),st("GetEnd",g=2),
+  st("InvBegin",i=2,T=[3]),st("InvApply",i=2),
+  st("Start",g=3,lo=1,hi=6),st("LoadBegin",g=3),st("LoadEnd",g=3,ok=True),st("Post",g=3),st("GetEnd",g=3)]))
 # memory: a Signal that arrives while the trim goroutine is finishing a pass is lost; it must not go to sleep over the soft limit
 scen.append(S("mem-trim-sleeps-over-soft-limit",2,[st("Start",g=1,lo=1,hi=2),st("LoadBegin",g=1),st("LoadEnd",g=1,ok=True),st("Post",g=1),st("GetEnd",g=1),
   st("HoldTrim"),st("SetLimitsRel",under=1,room=200),st("WaitTrimParked"),
